@@ -168,7 +168,7 @@ def generate(rng, seed, size):
         prefix = rng.choice(PREFIXES)
         nvar = rng.randint(1, 7)
         # serialize_all: only together with identifiers whose word splitting is unambiguous (casing.py)
-        style = rng.choice(casing.STYLES) if (rng.random() < 0.3 and not robust) else None
+        style = rng.choice(casing.STYLES) if rng.random() < 0.3 else None
         # systematic part: the first enums cover every serialize_all style, each with a variant named by its
         # (non-ASCII) identifier alone
         forced_style = (not robust) and ei < len(casing.STYLES)
